@@ -2,7 +2,7 @@ from typing import List, Optional
 
 from hexital.analysis import utils
 from hexital.core.candle import Candle
-from hexital.utils.indexing import validate_index
+from hexital.utils.indexing import absindex
 
 
 def doji(
@@ -23,7 +23,7 @@ def doji(
     Returns:
         bool: If The given Candle is Doji bool or 1/2
     """
-    index = validate_index(index, len(candles), -1)
+    index = absindex(index, len(candles))
     if index is None:
         return False
 
@@ -35,7 +35,7 @@ def doji(
     if lookback is None:
         return _doji(index)
 
-    return any(_doji(i) for i in range(len(candles) - lookback, len(candles)))
+    return any(_doji(i) for i in range(index - lookback + 1, index + 1))
 
 
 def dojistar(
@@ -43,7 +43,7 @@ def dojistar(
     lookback: Optional[int] = None,
     index: Optional[int] = None,
 ) -> bool:
-    index = validate_index(index, len(candles), -1)
+    index = absindex(index, len(candles))
     if index is None:
         return False
 
@@ -67,7 +67,7 @@ def dojistar(
     if lookback is None:
         return _dojistar(index)
 
-    return any(_dojistar(i) for i in range(len(candles) - lookback, len(candles)))
+    return any(_dojistar(i) for i in range(index - lookback + 1, index + 1))
 
 
 def hammer(
@@ -75,7 +75,7 @@ def hammer(
     lookback: Optional[int] = None,
     index: Optional[int] = None,
 ) -> bool | int:
-    index = validate_index(index, len(candles), -1)
+    index = absindex(index, len(candles))
     if index is None:
         return False
 
@@ -98,7 +98,7 @@ def hammer(
     if lookback is None:
         return _hammer(index)
 
-    return any(_hammer(i) for i in range(len(candles) - lookback, len(candles)))
+    return any(_hammer(i) for i in range(index - lookback + 1, index + 1))
 
 
 def inverted_hammer(
@@ -106,7 +106,7 @@ def inverted_hammer(
     lookback: Optional[int] = None,
     index: Optional[int] = None,
 ) -> bool | int:
-    index = validate_index(index, len(candles), -1)
+    index = absindex(index, len(candles))
     if index is None:
         return False
 
@@ -129,4 +129,4 @@ def inverted_hammer(
     if lookback is None:
         return _invhammer(index)
 
-    return any(_invhammer(i) for i in range(len(candles) - lookback, len(candles)))
+    return any(_invhammer(i) for i in range(index - lookback + 1, index + 1))
